@@ -36,12 +36,12 @@ structure Mon where
   now : Nat := 0
   inflight : List Nat := []
   errs : List (Nat × (Nat × Nat)) := []      -- id ↦ (class, expiresAt) of the last failed execution
-  blocked : Option Nat := none
+  blocked : List Nat := []
 
 structure St where
   m : State
   busy : Nat
-  blocked : Option (Nat × Nat × Nat) := none   -- thread, id, deadline
+  blocked : List (Nat × Nat × Nat) := []   -- Starts waiting for a worker: thread, id, deadline (arrival order)
   nextT : Nat := 0
   mon : Mon := {}
 
@@ -56,14 +56,21 @@ def err? (t : String) : Option (Nat × Bool) :=
 def ok (s : St) (obs : List String) (br : String) (pf : List String := []) : Option (St × StepOut) :=
   some (s, { obs := obs, branch := br, propfails := pf })
 
+/-- `unblocked=r1:ok,r2:busy` -/
+def unblockedOf (impl : List String) : List (Nat × String) :=
+  match kv? impl "unblocked" with
+  | some l => (list? l).filterMap (fun t => match t.splitOn ":" with
+      | [r, res] => (idx? 'r' r).map (fun i => (i, res))
+      | _ => none)
+  | none => []
+
 /-- the monitor: predicates of the property evaluated on the implementation's answers only; its
 ghost state is updated from those answers, never from the model -/
 def monStep (mon : Mon) (cfg : Cfg) (args impl : List String) : Mon × List String :=
-  let unblocked := kv? impl "unblocked"
-  let afterUnblock (m : Mon) : Mon := match unblocked, m.blocked with
-    | some "ok", some b => { m with inflight := b :: m.inflight, blocked := none }
-    | some _, _ => { m with blocked := none }
-    | none, _ => m
+  let ub := unblockedOf impl
+  let afterUnblock (m : Mon) : Mon :=
+    { m with inflight := (ub.filter (·.2 = "ok")).map (·.1) ++ m.inflight,
+             blocked := m.blocked.filter (fun b => !(ub.any (·.1 = b))) }
   match args with
   | ["start", rt] =>
     match idx? 'r' rt with
@@ -75,22 +82,26 @@ def monStep (mon : Mon) (cfg : Cfg) (args impl : List String) : Mon × List Stri
       match impl with
       | ["ok"] =>
         ({ mon with inflight := id :: mon.inflight },
-         (if id ∈ mon.inflight then [s!"side=impl key=concurrent-request start r{id} ran the request while an execution of r{id} is in flight"] else []) ++
+         (if id ∈ mon.inflight ∨ id ∈ mon.blocked then [s!"side=impl key=concurrent-request start r{id} ran the request while r{id} is in flight or reserved"] else []) ++
          (match cachedLive with
           | some e => [s!"side=impl key=cached-error-ignored start r{id} ran the request although error {errTok e} is cached and not expired"]
           | none => []))
       | ["blocked"] =>
-        ({ mon with blocked := some id },
-         (if id ∈ mon.inflight then [s!"side=impl key=concurrent-request start r{id} reserved the key while an execution of r{id} is in flight"] else []))
+        ({ mon with blocked := mon.blocked ++ [id] },
+         (if id ∈ mon.inflight ∨ id ∈ mon.blocked then [s!"side=impl key=concurrent-request start r{id} reserved the key while r{id} is in flight or reserved"] else []) ++
+         (match cachedLive with
+          | some e => [s!"side=impl key=cached-error-ignored start r{id} reserved the key although error {errTok e} is cached and not expired"]
+          | none => []))
       | ["pending"] =>
-        (mon, if id ∉ mon.inflight ∧ mon.blocked ≠ some id then
+        (mon, if id ∉ mon.inflight ∧ id ∉ mon.blocked then
           [s!"side=impl key=stale-pending start r{id} reported pending but nothing is in flight or reserved for r{id}"] else [])
       | [c] =>
         (mon, if c.startsWith "cached:" then
-          match err? (c.drop 7).toString with
-          | some (e, _) => if (alook mon.errs id).map (·.1) ≠ some e then
-              [s!"side=impl key=wrong-cached-error start r{id} reported {c} which is not the error of its last execution"] else []
-          | none => []
+          (match err? (c.drop 7).toString with
+           | some (e, _) => if (alook mon.errs id).map (·.1) ≠ some e then
+               [s!"side=impl key=wrong-cached-error start r{id} reported {c} which is not the error of its last execution"] else []
+           | none => []) ++
+          (if id ∈ mon.inflight ∨ id ∈ mon.blocked then [s!"side=impl key=pending-not-reported start r{id} reported {c} while r{id} is in flight or reserved"] else [])
         else [])
       | _ => (mon, [])
   | ["finish", rt, res] =>
@@ -102,10 +113,8 @@ def monStep (mon : Mon) (cfg : Cfg) (args impl : List String) : Mon × List Stri
         | "ok", _ => { cleared with errs := mon.errs.filter (·.1 ≠ id) }
         | _, some (e, nf) => { cleared with errs := (id, (e, mon.now + (if nf then cfg.nfTTL else cfg.errTTL))) :: mon.errs }
         | _, none => cleared
-      let pf := match unblocked, mon.blocked with
-        | some "ok", some b => if b ∈ m1.inflight then
-            [s!"side=impl key=concurrent-request the blocked start of r{b} ran while r{b} is in flight"] else []
-        | _, _ => []
+      let pf := (ub.filter (fun u => u.2 = "ok" ∧ u.1 ∈ m1.inflight)).map
+        (fun u => s!"side=impl key=concurrent-request the blocked start of r{u.1} ran while r{u.1} is in flight")
       (afterUnblock m1, pf)
   | ["adv", dt] =>
     let m1 : Mon := { mon with now := mon.now + (dt.toNat?.getD 0) }
@@ -114,8 +123,10 @@ def monStep (mon : Mon) (cfg : Cfg) (args impl : List String) : Mon × List Stri
     let implPending : List Nat := match kv? impl "pending" with
       | some t => (list? t).filterMap (idx? 'r')
       | none => []
-    (mon, (implPending.filter (fun i => i ∉ mon.inflight ∧ mon.blocked ≠ some i)).map
+    (mon, (implPending.filter (fun i => i ∉ mon.inflight ∧ i ∉ mon.blocked)).map
       (fun i => s!"side=impl key=stale-pending r{i} is pending but nothing is in flight or reserved for it") ++
+      ((mon.inflight ++ mon.blocked).filter (fun i => i ∉ implPending)).map
+      (fun i => s!"side=impl key=pending-lost r{i} is in flight or reserved but not pending") ++
       (match (kv? impl "workers").bind String.toNat? with
        | some w => if w > cfg.workers then [s!"side=impl key=too-many-workers {w} of {cfg.workers}"] else []
        | none => []))
@@ -132,7 +143,9 @@ def step (s0 : St) (kind : String) (args impl : List String) : Option (St × Ste
     let out := reserveOut s.m id
     let m1 := RC.step s.m (.reserve t id)
     match out with
-    | .pending => ok { s with m := m1, nextT := t + 1 } ["pending"] "start.pending" pf
+    | .pending =>
+      let br := if s.blocked.any (·.2.1 = id) then "start.pending.reserved-without-worker" else "start.pending"
+      ok { s with m := m1, nextT := t + 1 } ["pending"] br pf
     | .cached e => ok { s with m := m1, nextT := t + 1 } [s!"cached:{errTok e}"] "start.cached" pf
     | .ok =>
       if nworkers m1 < m1.cfg.workers then
@@ -140,7 +153,8 @@ def step (s0 : St) (kind : String) (args impl : List String) : Option (St × Ste
         let br := if (alook s.m.errors id).isSome then "start.ok.after-expired-error" else "start.ok"
         ok { s with m := m2, nextT := t + 1 } ["ok"] br pf
       else
-        ok { s with m := m1, nextT := t + 1, blocked := some (t, id, s.m.now + s.busy) } ["blocked"] "start.blocked" pf
+        let br := if s.blocked.isEmpty then "start.blocked" else "start.blocked.second"
+        ok { s with m := m1, nextT := t + 1, blocked := s.blocked ++ [(t, id, s.m.now + s.busy)] } ["blocked"] br pf
   | ["finish", rt, res] => do
     let id ← idx? 'r' rt
     if id ∉ s.m.execs then none else
@@ -150,21 +164,26 @@ def step (s0 : St) (kind : String) (args impl : List String) : Option (St × Ste
         let (e, nf) ← err? res
         some (RC.step s.m (.finishErr id e nf))
     let m2 := RC.step m1 .releaseWorker
-    match s.blocked with
-    | some (t, _, _) =>
+    -- one of the waiting Starts gets the freed slot: the transcript says which (any of them is admissible)
+    let chosen : Option (Nat × Nat × Nat) :=
+      match (unblockedOf impl).head? with
+      | some (i, _) => (s.blocked.find? (·.2.1 = i)).orElse (fun _ => s.blocked.head?)
+      | none => s.blocked.head?
+    match chosen with
+    | some (t, bid, dl) =>
       let m3 := RC.step m2 (.workerOk t)
-      ok { s with m := m3, blocked := none } ["done", "unblocked=ok"] "finish.unblocks" pf
+      let br := if s.blocked.length > 1 then "finish.unblocks.one-of-several" else "finish.unblocks"
+      ok { s with m := m3, blocked := s.blocked.filter (· ≠ (t, bid, dl)) } ["done", s!"unblocked=r{bid}:ok"] br pf
     | none => ok { s with m := m2 } ["done"] (if res = "ok" then "finish.ok" else "finish.err") pf
   | ["adv", dt] => do
     let d ← dt.toNat?
     let m1 := RC.step s.m (.adv d)
-    match s.blocked with
-    | some (t, _, deadline) =>
-      if deadline ≤ m1.now then
-        let m2 := RC.step (RC.step m1 (.workerBusy t)) (.release t)
-        ok { s with m := m2, blocked := none } ["ok", "unblocked=busy"] "adv.busy" pf
-      else ok { s with m := m1 } ["ok"] "adv.still-blocked" pf
-    | none => ok { s with m := m1 } ["ok"] "adv" pf
+    let due := s.blocked.filter (fun b => b.2.2 ≤ m1.now)
+    if due.isEmpty then ok { s with m := m1 } ["ok"] (if s.blocked.isEmpty then "adv" else "adv.still-blocked") pf else
+    let m2 := due.foldl (fun m b => RC.step (RC.step m (.workerBusy b.1)) (.release b.1)) m1
+    let toks := (isort (due.map (·.2.1))).map (fun i => s!"r{i}:busy")
+    ok { s with m := m2, blocked := s.blocked.filter (fun b => !(b.2.2 ≤ m1.now)) } ["ok", "unblocked=" ++ listTok toks]
+      (if due.length > 1 then "adv.busy.several" else "adv.busy") pf
   | ["probe"] =>
     let obs := [s!"pending={listTok ((isort s.m.pending).map (fun i => s!"r{i}"))}", s!"workers={nworkers s.m}"]
     ok s obs "probe" pf
@@ -398,6 +417,46 @@ def step (s : St) (kind : String) (args impl : List String) : Option (St × Step
 def machine : Machine := { σ := St, name := "lim", init := fun _ => some { m := Lim.init true, trapPrev := 1 }, step := step }
 end LM
 
+/-! ### Refresher (lib/blobrefresh): RequestCache keyed by the blob digest -/
+namespace BRM
+open RC
+
+structure St where
+  m : State
+  owner : List (Nat × Nat) := []     -- digest ↦ namespace whose request downloads it
+  nextT : Nat := 0
+  inflight : List Nat := []          -- monitor ghost: digests being downloaded
+
+def step (s : St) (kind : String) (args impl : List String) : Option (St × StepOut) :=
+  if kind ≠ "op" then none else
+  match args with
+  | ["refresh", nst, dt] => do
+    let ns ← (if nst.startsWith "ns" then (nst.drop 2).toString.toNat? else none)
+    let d ← idx? 'd' dt
+    let pf := if impl = ["ok"] ∧ d ∈ s.inflight then
+      [s!"side=impl key=concurrent-download refresh of d{d} through ns{ns} started a download while one of d{d} is in flight"] else []
+    let s := if impl = ["ok"] then { s with inflight := d :: s.inflight } else s
+    let t := s.nextT
+    match reserveOut s.m d with
+    | .pending => some ({ s with nextT := t + 1 }, { obs := ["pending"], branch := if (alook s.owner d) = some ns then "refresh.pending" else "refresh.pending.other-namespace", propfails := pf })
+    | .cached _ => some ({ s with m := RC.step s.m (.reserve t d), nextT := t + 1 }, { obs := ["err"], branch := "refresh.cached-error", propfails := pf })
+    | .ok =>
+      let m := RC.step (RC.step s.m (.reserve t d)) (.workerOk t)
+      some ({ s with m := m, nextT := t + 1, owner := (d, ns) :: s.owner }, { obs := ["ok"], branch := "refresh.ok", propfails := pf })
+  | ["dlend", nst, dt, res] => do
+    let ns ← (if nst.startsWith "ns" then (nst.drop 2).toString.toNat? else none)
+    let d ← idx? 'd' dt
+    let s := { s with inflight := s.inflight.erase d }
+    if d ∉ s.m.execs ∨ alook s.owner d ≠ some ns then
+      some (s, { obs := ["model:no-such-download"], branch := "dlend.bad" })
+    else
+      let m1 := if res = "ok" then RC.step s.m (.finishOk d) else RC.step s.m (.finishErr d 0 false)
+      some ({ s with m := RC.step m1 .releaseWorker, owner := adel s.owner d }, { obs := ["done"], branch := if res = "ok" then "dlend.ok" else "dlend.fail" })
+  | _ => none
+
+def machine : Machine := { σ := St, name := "br", init := fun _ => some { m := RC.init ⟨1000000, 1000000, 5, 10000⟩ }, step := step }
+end BRM
+
 end C29
 
-def main (args : List String) : IO UInt32 := runMachines [C29.RCM.machine, C29.ITM.machine, C29.LM.machine] args
+def main (args : List String) : IO UInt32 := runMachines [C29.RCM.machine, C29.ITM.machine, C29.LM.machine, C29.BRM.machine] args
